@@ -806,6 +806,31 @@ func bigFloat() *big.Float {
 	return new(big.Float).SetPrec(512)
 }
 
+// addBigFloats returns x + y, or x - y if sub is true. If the exponents of
+// the operands are so far apart that the smaller one cannot change the
+// rounded result, it returns the larger one: big.Float would align the
+// mantissas first, shifting one of them by the difference of the exponents,
+// that for constants can be billions of bits.
+func addBigFloats(x, y *big.Float, sub bool) *big.Float {
+	if x.Sign() != 0 && y.Sign() != 0 && !x.IsInf() && !y.IsInf() {
+		const far = 2 * 512 // twice the precision of the constants
+		ex, ey := x.MantExp(nil), y.MantExp(nil)
+		if ex-ey > far {
+			return bigFloat().Set(x)
+		}
+		if ey-ex > far {
+			if sub {
+				return bigFloat().Neg(y)
+			}
+			return bigFloat().Set(y)
+		}
+	}
+	if sub {
+		return bigFloat().Sub(x, y)
+	}
+	return bigFloat().Add(x, y)
+}
+
 func (c1 float64Const) asFloat() floatConst {
 	return floatConst{f: bigFloat().SetFloat64(float64(c1))}
 }
@@ -889,9 +914,9 @@ func (c1 floatConst) binaryOp(op ast.OperatorType, c2 constant) (constant, error
 			return boolConst(cmp >= 0), nil
 		}
 	case ast.OperatorAddition:
-		return makeFloatConst(bigFloat().Add(n1.f, n2.f))
+		return makeFloatConst(addBigFloats(n1.f, n2.f, false))
 	case ast.OperatorSubtraction:
-		return makeFloatConst(bigFloat().Sub(n1.f, n2.f))
+		return makeFloatConst(addBigFloats(n1.f, n2.f, true))
 	case ast.OperatorMultiplication:
 		return makeFloatConst(bigFloat().Mul(n1.f, n2.f))
 	case ast.OperatorDivision:
